@@ -20,7 +20,8 @@ META = {
 }
 SHARD_DEADLINE = {'quick': 300, 'thorough': 3300}
 FORMS = ['keys-int', 'keys-name', 'keys-mixed', 'mapping-int', 'mapping-name', 'mapping-permuted-name', 'keys-permuted-name', 'kw-canonical', 'kw-permuted', 'kw-mixed', 'grades-values',
-         'convenience-values', 'convenience-kw', 'name', 'fromkeysvalues', 'full-values']
+         'convenience-values', 'convenience-kw', 'convenience-name', 'name', 'fromkeysvalues', 'full-values']
+STRICT_FORMS = {'convenience-values', 'convenience-name', 'grades-values', 'full-values', 'fromkeysvalues', 'name'}
 BAD = ['length-mismatch', 'length-mismatch-grades', 'keys-outside-grades', 'kw-outside-grades', 'invalid-grade', 'negative-grade',
        'graded-incomplete-keys', 'graded-incomplete-mapping', 'graded-incomplete-kw', 'graded-incomplete-name', 'graded-incomplete-fromkw-perm',
        'kw-blade-outside-algebra', 'repeated-grade', 'int-key-outside-algebra']
@@ -133,7 +134,7 @@ def good_case(ctx, alg, iso, cfg, name, form):
         kind = 'frac'      # fromkeysvalues takes values as they are; strings are only sympified by the constructor
     grades = None
     ctor = None
-    if form in ('grades-values', 'convenience-values', 'convenience-kw', 'name') or graded:
+    if form in ('grades-values', 'convenience-values', 'convenience-kw', 'convenience-name', 'name') or graded:
         # blades of complete grades
         ng = rng.randint(1, min(2, d + 1))
         grades = tuple(sorted(rng.sample(range(d + 1), ng)))
@@ -214,6 +215,15 @@ def good_case(ctx, alg, iso, cfg, name, form):
             return alg.multivector(values=[t['value'] for t in table])
         raise KeyError(form)
 
+    if form == 'convenience-name':
+        nm = rng.choice(['a', 'B', 'x1'])
+
+        def construct():     # noqa: F811
+            f = getattr(alg, ctor)
+            return f(name=nm, grade=grades[0]) if ctor == 'purevector' else f(name=nm)
+        import sympy
+        expected = {t['key']: sympy.Symbol(f'{nm}{alg.bin2canon[t["key"]][1:]}') for t in table}
+        kind = 'symbolic-name'
     if form == 'name':
         nm = rng.choice(['a', 'B', 'x1'])
         how = rng.choice(['grades', 'keys', 'plain'])
@@ -238,7 +248,14 @@ def good_case(ctx, alg, iso, cfg, name, form):
         if st == 'exc':
             # a constructor that raises builds nothing and therefore drops nothing silently: recorded, not judged (DESIGN 2.5)
             ctx.note_raised(mv, form)
-            ctx.count('consistent_input_rejected_recorded_not_judged')
+            if form in STRICT_FORMS:
+                # complete, consistent input in a form kingdon never refuses on the unchanged tree (value lists of exactly the right length,
+                # names, integer keys): "however a multivector is built" has nothing to read back if building it raises
+                ctx.count('form_' + form)
+                ctx.case(cid)
+                ctx.violation('consistent input was rejected', cid, error=f'{type(mv).__name__}: {str(mv)[:160]}', **wit)
+            else:
+                ctx.count('consistent_input_rejected_recorded_not_judged')
         return
     ctx.count('form_' + form)
     if cfg.get('basis') or cfg.get('named'):
